@@ -84,6 +84,7 @@ class FakeRandom:
 
     def __init__(self):
         self.mode, self.val, self.calls = "d", 0.0, []
+        self.expo_calls = 0
 
     def uniform(self, a, b):
         self.calls.append((a, b))
@@ -92,6 +93,7 @@ class FakeRandom:
         return a + (b - a) * self.val      # CPython Lib/random.py
 
     def expovariate(self, lambd):
+        self.expo_calls = getattr(self, "expo_calls", 0) + 1
         return 1.0
 
     def random(self):
@@ -386,7 +388,9 @@ def handler_cases(ctx, n_cases):
                         cells.relative_cell.return_value = 10
                         cells.zero_cell = 0
                     if not veto:
+                        fake.expo_calls = 0
                         h.send_event_time(in_state)
+                        expo_calls = fake.expo_calls
                     else:
                         h._store_in_state(in_state)
                         h._construct_leaf_cnodes()
@@ -418,6 +422,14 @@ def handler_cases(ctx, n_cases):
                     else:
                         tar, loc = su[:half], su[half:]
                     ntarget = len(tar)
+                    if kind == 4 and expo_calls != ntarget:
+                        # the candidate time of a SUMMED bound is the minimum over the pairs of displacements for INDEPENDENT
+                        # exponential potential changes: only then is it drawn at the sum of the pair rates, which is the bounding rate
+                        # the confirmation ratio divides by
+                        ctx.fail("TwoCompositeObjectSummedBoundingPotentialEventHandler:candidate-not-drawn-at-the-summed-bounding-rate",
+                                 {"kind": kind, "target_leaves": ntarget, "expovariate_calls": expo_calls},
+                                 f"send_event_time drew {expo_calls} exponential potential change(s) for {ntarget} pair displacements: "
+                                 "the candidate time is then not distributed with the summed pair rate that send_out_state uses as bounding rate")
                     b, qsum, regime = gen_rate_pair(rng)
                     dyadic = rng.random() < 0.5
 
@@ -887,6 +899,12 @@ def part_root(ctx):
             except Exception as e:  # noqa
                 ctx.fail("send_event_time:" + name, base, f"send_event_time raised {e!r}")
                 return
+            if fake.expo_calls != len(loc0) * len(tar0):
+                # a SUMMED bound: one INDEPENDENT exponential potential change per (active leaf, target leaf) pair, otherwise the candidate
+                # time is not drawn at the sum of the pair rates that send_out_state uses as bounding rate
+                ctx.fail(f"{name}:candidate-not-drawn-at-the-summed-bounding-rate",
+                         {**base, "pairs": len(loc0) * len(tar0), "expovariate_calls": fake.expo_calls},
+                         f"send_event_time drew {fake.expo_calls} exponential potential change(s) for {len(loc0) * len(tar0)} pair displacements")
             et = h._event_time
             if ret[0] is not et or (f2b(et.quotient), f2b(et.remainder)) != (f2b(want_time.quotient), f2b(want_time.remainder)):
                 ctx.fail(f"{name}:candidate-time-not-from-the-bounding-potential",
